@@ -104,7 +104,8 @@ func newWorld(me int, w []uint64) *vWorld {
 
 // prefix states (reachable by construction: produced by the real handlers on honest traffic)
 //   0 fresh; 1 accepted the view-0 proposal; 2 prepared in view 0; 3 timed out to view 1 without lock;
-//   4 timed out to view 1 holding a lock; 5 committed in view 0
+//   4 timed out to view 1 holding a lock; 5 committed in view 0;
+//   6 accepted the view-0 proposal and holds two genuine COMMITs for it (no quorum), not prepared
 func (wd *vWorld) prefix(p int) {
 	n, net := wd.n, wd.net
 	wd.blk = &stub.Block{H: 1, Tag: 0x21, ProposalOK: true}
@@ -135,6 +136,16 @@ func (wd *vWorld) prefix(p int) {
 	}
 	if p == 3 || p == 4 {
 		n.timeout()
+	}
+	if p == 6 {
+		if wd.me != 0 {
+			n.deliver(net.ppm(0, 1, 0, wd.blk).ToConsensusRawMessage())
+		}
+		for k, i := range others {
+			if k < 2 {
+				n.deliver(net.cm(i, 1, 0, hash).ToConsensusRawMessage())
+			}
+		}
 	}
 }
 
@@ -184,7 +195,7 @@ func C08_OneMessage() {
 	case 3:
 		k := env.Param("prepares")
 		vh := &protocol.ViewChangeHeaderBuilder{MessageType: hdr.typ, InstanceId: hdr.instance, BlockHeight: hdr.height, View: hdr.view}
-		if k >= 0 {
+		if k >= 0 || k == -2 {
 			prf = newSymProof(wd.reg, "pr", k)
 			vh.PreparedProof = prf.b
 			voteHasProof = true
